@@ -26,7 +26,8 @@ RULE = ("op-lists over node creation / assignment / func replacement / node repl
         "read of such an ancestor; distinct by hash of the op-list")
 ASSUMPTIONS = [
     "values are small integers (exact arithmetic); Array values are float64 copies of them",
-    "freeze is always issued directly after a successful read of that node (the pattern FitBase._pre_fit_iteration uses); "
+    "freeze is issued directly after a successful read of that node (the pattern FitBase._pre_fit_iteration uses); a freeze without a preceding read (node possibly "
+    "stale) makes the values of that node and of everything above it 'not defined by the property' until it is unfrozen - reads are performed but not compared; "
     "Parameters are never frozen",
     "node.replace(other) / Tuple[i]=x / add_child are only generated when they do not close a cycle (only Nexus.add_dependency "
     "and Nexus.add are documented to check); Nexus.add_dependency is also generated with cycle-closing edges and must raise "
@@ -94,6 +95,14 @@ class Rec:
 class ModelError(Exception):
     def __init__(self, etype):
         self.etype = etype
+
+
+class Ambiguous(Exception):
+    """the from-scratch value is not defined by the property's wording: a node that was frozen while it was stale ("the value it had when it was frozen" could be
+    the last evaluated one or the one it would have had) is below the node being read.  Reads are still performed, comparisons resume after unfreeze."""
+
+
+AMBIG = object()
 
 
 class World:
@@ -174,6 +183,8 @@ class World:
             raise RuntimeError("model recursion: cycle in model graph (harness bug)")
         r = self.recs[idx]
         if r.frozen:
+            if r.snapshot is AMBIG:
+                raise Ambiguous()
             return r.snapshot
         k = r.kind
         if k == "param":
@@ -225,6 +236,8 @@ class World:
             return ("ok", self.ev(idx))
         except ModelError as e:
             return ("err", e.etype)
+        except Ambiguous:
+            return ("ambiguous", None)
 
     def real_read(self, idx):
         try:
@@ -269,6 +282,10 @@ class World:
         m = self.model_read(idx)
         g = self.real_read(idx)
         r = self.recs[idx]
+        if m[0] == "ambiguous":
+            self.labels.add("read_above_node_frozen_while_stale")
+            self.cached_since[idx] = True
+            return ("ambiguous", None)
         if g[0] == "err" and m[0] == "err" and g[1] is not m[1] and g[1] in self.possible_errors(idx):
             self.labels.add("several_failing_inputs")
             return g
@@ -714,6 +731,17 @@ def apply_op(w, op):
         n.frozen = True
         n.snapshot = g[1]
         w.labels.add("freeze")
+    elif k == "freeze_stale":
+        # freeze without reading first (the node may be stale): what it returns while frozen is left open, but once it is unfrozen every read must again equal
+        # the from-scratch evaluation - parents that were evaluated meanwhile must not keep what they computed from the frozen value
+        n = w.pick(op["n"], lambda r: r.kind not in ("param", "empty") and not r.frozen)
+        if n is None:
+            return "skip"
+        with guard("freeze"):
+            n.obj.freeze()
+        n.frozen = True
+        n.snapshot = AMBIG
+        w.labels.add("freeze_without_read")
     elif k == "unfreeze":
         n = w.pick(op["n"], lambda r: r.frozen)
         if n is None:
@@ -743,6 +771,13 @@ def apply_op(w, op):
         expected = {}
         err_first = None
         errlist = []
+        if any(w.model_read(idx)[0] == "ambiguous" for idx in w.registry.values()):
+            try:
+                w.nexus.get_value_dict(error_behavior=beh)
+            except Exception:  # noqa
+                pass
+            w.labels.add("get_value_dict_not_compared_node_frozen_while_stale")
+            return None
         for name, idx in w.registry.items():
             m = w.model_read(idx)
             if m[0] == "ok":
@@ -889,6 +924,8 @@ def strategy(tier):
         st.fixed_dictionaries({"op": st.just("setitem"), "t": ref, "i": st.integers(0, 3), "x": a}),
         st.fixed_dictionaries({"op": st.just("adddep"), "n": ref, "d": ref, "via": st.sampled_from(["nexus", "child"])}),
         st.fixed_dictionaries({"op": st.just("freeze"), "n": ref}),
+        st.fixed_dictionaries({"op": st.just("freeze_stale"), "n": ref}),
+        st.fixed_dictionaries({"op": st.just("unfreeze"), "n": ref}),
         st.fixed_dictionaries({"op": st.just("unfreeze"), "n": ref}),
     )
     read = st.one_of(
